@@ -585,7 +585,9 @@ def valid_sequence(fmt, items):
                     return False
     if any(s[0] != "v" for s in stack):
         return False
-    for a, b in zip(items, items[1:]):
+    # a source line wrap next to an inline tag (only white space between them) is outside the domain (design/C04.md)
+    solid = [it for it in items if not (it[0] == "t" and all(chr(c).isspace() for c, _ in it[1]))]
+    for a, b in zip(solid, solid[1:]):
         if a[0] == "w" and b[0] in ("o", "c"):
             return False
         if b[0] == "w" and a[0] in ("o", "c"):
